@@ -23,9 +23,9 @@ def parse_split_specification(split_spec, size):
     parts = []
     rest_index = None  # remember where the 'rest' part is
     for i, part_spec in enumerate(split_spec.split('_')):
-        if part_spec[-1] == "%":
-            parts.append(int(floor((int(part_spec[:-1]) / 100) * size)))
-        elif part_spec[-1] == "#":
+        if part_spec.endswith("%") and part_spec[:-1].isdigit():
+            parts.append((int(part_spec[:-1]) * size) // 100)
+        elif part_spec.endswith("#") and part_spec[:-1].isdigit():
             parts.append(int(part_spec[:-1]))
         elif part_spec == 'rest' and rest_index == None:
             parts.append(0)
